@@ -166,17 +166,25 @@ def gen_schednodes(repo):
         raise Untranslatable('schedule.complete: expected exactly one `_prune()` call')
 
     def bookkeeping(st):
-        """history / timing statements: they do not touch the node"""
-        if isinstance(st, ast.Assign):
-            names = {x.id for tg in st.targets for x in ast.walk(tg) if isinstance(x, ast.Name)}
-            return names <= {'history', args[3]} and f'{n}.set' not in ast.unparse(st)
+        """assignments to locals / entries of local containers (history, time stamps): they do not touch the node"""
+        if isinstance(st, (ast.Assign, ast.AnnAssign, ast.AugAssign)):
+            tgts = st.targets if isinstance(st, ast.Assign) else [st.target]
+            for tg in tgts:
+                base = tg
+                while isinstance(base, ast.Subscript):
+                    base = base.value
+                if not isinstance(base, ast.Name) or base.id == n:
+                    return False
+            src = ast.unparse(st)
+            return not any(x in src for x in (f'{n}.set', '.remove(', '.clear(', '.discard(', '.add(', '.pop(',
+                                              '.update(', '_prune(', '_purge('))
         return False
     node_part = [st for st in fn.body[:idx[0]] if not bookkeeping(st)]
     complete = _block(node_part, n, t, 'schedule.complete', set(), lambda st: False)
     appends = 0
     for st in fn.body[idx[0] + 1:]:
         s = ast.unparse(st)
-        if isinstance(st, (ast.Return, ast.Pass)):
+        if isinstance(st, (ast.Return, ast.Pass)) or bookkeeping(st):
             continue
         if isinstance(st, ast.Expr) and isinstance(st.value, ast.Call) and (
                 s.startswith('history.append(') or s.startswith('dawgie.pl.logger.chronicle.append(')):
